@@ -85,7 +85,9 @@ def step(f, m, kind, action, k):
 
 
 def case(kind, layout, indent_by, seq):
-    f = PARSER.parse(doc(kind, layout), models.File)
+    pi = '    '
+    if kind.startswith('posting:'): kind, pi = 'posting', kind.split(':', 1)[1]
+    f = PARSER.parse(doc(kind, layout, pi), models.File)
     m = target(f, kind)
     m.indent_by = indent_by
     for k, action in enumerate(seq):
@@ -112,11 +114,11 @@ def run(prop, tier, seed):
     rnd = random.Random(seed)
     rep = Report('indent', __doc__.strip().replace('\n', ' ') + ' distinct by (kind, layout, indent_by, action sequence); all non-trivial', bound='sequences of <= 3 steps (quick), <= 4 (thorough)')
     L = 3 if tier == 'quick' else 4
-    for kind in ('entry', 'posting'):
+    for kind in ('entry', 'posting', 'posting:\t', 'posting: \t', 'posting:\t\t'):      # postings indented by blanks, a tab, mixed, two tabs
         for layout in LAYOUTS:
             for ib in INDENT_BY:
                 seqs = [s for n in range(1, L + 1) for s in itertools.product(ACTIONS, repeat=n) if s[-1] in ('set-key', 'leading', 'trailing') or n == 1]
-                if tier == 'quick': seqs = [s for s in seqs if len(s) <= 2 or rnd.random() < 0.25]
+                if tier == 'quick': seqs = [s for s in seqs if len(s) <= 2 or rnd.random() < (0.25 if ':' not in kind else 0.05)]
                 elif len(seqs) > 1500: seqs = rnd.sample(seqs, 1500)
                 for seq in seqs:
                     key = (kind, layout, ib, seq)
